@@ -10,4 +10,5 @@ StubOps == {"Apply", "Return", "Returns", "When", "Cancel", "Reset", "Call"}
 SeqOps == {"Return", "Returns", "When", "Call", "Reset"}
 LogNames == {"OpenDebug", "CloseDebug", "OpenTrace", "CloseTrace"}
 LogOps == AllOps \cup LogNames
+RejectOps == StubOps \cup {"Mistake"}
 ====
